@@ -541,8 +541,12 @@ def _propositional(ctx, f: FunctionInfo, raise_stmt) -> Tuple[bool, str]:
                 continue
             if not _roots_stable(f, [e.left, e.comparators[0]]):
                 continue
-            key = txt(e)
+            neg = isinstance(e.ops[0], (ast.NotIn, ast.NotEq))
+            pos = ast.Compare(left=e.left, ops=[ast.In() if isinstance(e.ops[0], (ast.In, ast.NotIn)) else ast.Eq()], comparators=e.comparators)
+            key = txt(pos)  # `x not in y` is the negation of the atom `x in y`
             atoms.setdefault(key, []).append(n.id)
+            if neg:
+                flipped.add(n.id)
     rep = {k: v for k, v in atoms.items() if len(v) >= 2}
     if not rep or len(rep) > 8:
         return False, "no repeated pure atoms"
@@ -554,8 +558,9 @@ def _propositional(ctx, f: FunctionInfo, raise_stmt) -> Tuple[bool, str]:
         assign = dict(zip(keys, vals))
         avoid = set()
         for k, nodes in rep.items():
-            bad = "F" if assign[k] else "T"
             for nid in nodes:
+                truth = assign[k] != (nid in flipped)  # outcome of the condition node itself
+                bad = "F" if truth else "T"
                 for y, l in g.succ[nid]:
                     if l == bad:
                         avoid.add((nid, y, l))
